@@ -68,18 +68,22 @@ def names_trace(ctx):
     return dict(id="names", kind="names", table=table, site=FSITE, sig="name table")
 
 
+OFF = [0]      # real label = trace label - OFF[0]: the specification keeps -1 for NaN, real label sets may be negative
+
+
 def perm_trace(tid, labels, y, seed, rng):
     """labels: sorted list of ints; y: list with -1 for NaN."""
+    off = OFF[0]
     from mlinsights.mlmodel import PermutationReciprocalTransformer as P
-    ya = numpy.array([numpy.nan if v == -1 else float(v) for v in y])
+    ya = numpy.array([numpy.nan if v == -1 else float(v - off) for v in y])
     yfit = numpy.array([float(v) for v in labels if True])
     order = list(labels)
     rng.shuffle(order)
-    yfit = numpy.array([float(v) for v in order])         # first-appearance order varies too
+    yfit = numpy.array([float(v - off) for v in order])         # first-appearance order varies too
     X = numpy.arange(2 * len(y), dtype=float).reshape((len(y), 2))
     tr = P(random_state=seed)
     tr.fit(None, yfit)
-    sigma = [[int(k), int(v)] for k, v in tr.permutation_.items()]
+    sigma = [[int(k) + off, int(v)] for k, v in tr.permutation_.items()]
     X1, ty = tr.transform(X.copy(), ya.copy())
     inv = tr.get_fct_inv()
     X2, back = inv.transform(X1, ty)
@@ -87,7 +91,8 @@ def perm_trace(tid, labels, y, seed, rng):
     pin = [10 * (i + 1) + i * i for i in range(m)]
     _, pout = inv.transform(None, numpy.array([pin, pin], dtype=float))
     enc = lambda a: [-1 if numpy.isnan(v) else int(round(v)) for v in numpy.asarray(a, dtype=float).ravel()]
-    return dict(id=tid, kind="perm", labels=list(labels), sigma=sigma, y=list(y), ty=enc(ty), back=enc(back),
+    encl = lambda a: [-1 if numpy.isnan(v) else int(round(v)) + off for v in numpy.asarray(a, dtype=float).ravel()]
+    return dict(id=tid, kind="perm", labels=list(labels), sigma=sigma, y=list(y), ty=enc(ty), back=encl(back),
                 features_untouched=bool(numpy.array_equal(X1, X) and numpy.array_equal(X2, X)),
                 proba_in=pin, proba_out=enc(pout[0]), site=PSITE, sig="m=%d" % m, truth=0, S=[])
 
@@ -101,7 +106,8 @@ def tt2c_trace(tid, labels, y, seed, probe):
     from mlinsights.mlmodel import TransformedTargetClassifier2, PermutationReciprocalTransformer as P
     n = len(y)
     X = numpy.array([[i, (3 * i) % 4] for i in range(n)], dtype=float)
-    ya = numpy.array(y, dtype=numpy.int64)
+    off = OFF[0]
+    ya = numpy.array(y, dtype=numpy.int64) - off
     del stubs.LOG[:]
     if seed % 2:
         tt = TransformedTargetClassifier2(classifier=stubs.RecClf(), transformer=P(random_state=seed))
@@ -113,20 +119,20 @@ def tt2c_trace(tid, labels, y, seed, probe):
     else:
         tt.fit(X, ya)
     inner_train = [int(v) for nm, f in stubs.LOG if nm == "fitclf" for v in f["ys"]]
-    sigma = [[int(k), int(v)] for k, v in tt.transformer_.permutation_.items()]
+    sigma = [[int(k) + off, int(v)] for k, v in tt.transformer_.permutation_.items()]
     if seed % 3 == 0:
         # the caller hands the same transformer object to a second estimator trained on the labels in another order:
         # the first estimator keeps decoding with the permutation of ITS fit
         other = TransformedTargetClassifier2(classifier=stubs.RecClf(), transformer=tt.get_params(deep=False)["transformer"])
-        other.fit(X[::-1].copy(), numpy.array(sorted(y, reverse=True), dtype=numpy.int64))
+        other.fit(X[::-1].copy(), numpy.array(sorted(y, reverse=True), dtype=numpy.int64) - off)
     Xq = X[probe:probe + 1]
     plain = stubs.RecClf().fit(X, ya)
-    S = [[int(c), int(plain.score_[c])] for c in plain.classes_.tolist()]
+    S = [[int(c) + off, int(plain.score_[c])] for c in plain.classes_.tolist()]
     return dict(id=tid, kind="tt2c", labels=sorted(set(y)), sigma=sigma, y=list(y), truth=int(y[probe]), S=S,
-                inner_train=inner_train, pred=int(tt.predict(Xq)[0]), plain_pred=int(plain.predict(Xq)[0]),
+                inner_train=inner_train, pred=int(tt.predict(Xq)[0]) + off, plain_pred=int(plain.predict(Xq)[0]) + off,
                 proba=[int(round(v)) for v in tt.predict_proba(Xq)[0]],
                 plain_proba=[int(round(v)) for v in plain.predict_proba(Xq)[0]],
-                classes=[int(v) for v in tt.classes_], site=CSITE,
+                classes=[int(v) + off for v in tt.classes_], site=CSITE,
                 sig="m=%d sigma=%s" % (len(set(y)), "id" if all(a == b for a, b in zip(
                     [s[1] for s in sorted(sigma)], range(len(sigma)))) else "non-id"))
 
@@ -191,10 +197,15 @@ def run(ctx):
         except Exception as e:
             ctx.violation("CallSucceeds", RSITE, "name=%s" % name, repr(e))
     label_sets = [[0, 1], [0, 1, 2], [2, 5, 7], [1, 3, 4, 9], [3, 8], [0, 2, 4, 6]]
+    # label sets with negative labels, written with an offset of 100 (the specification keeps -1 for NaN): {-1, 1},
+    # {-1, 1, 2}, {-2, 1, 2, 3}, {-1, 0, 2}, {-5, -3}
+    negative = [[99, 101], [99, 101, 102], [98, 101, 102, 103], [99, 100, 102], [95, 97]]
+    label_sets += negative
     if thorough:
         label_sets += [[0, 1, 2, 3, 4], [10, 20, 30, 45, 70], [4, 6], [1, 2, 3], [0, 5, 6, 8]]
     k = 0
     for labels in label_sets:
+        OFF[0] = 100 if labels in negative else 0
         m = len(labels)
         want = set(itertools.permutations(range(m))) if m <= 4 else None
         seen = set()
